@@ -21,7 +21,14 @@ for l in open(os.path.join(HERE, 'properties.jsonl')):
     subprocess.check_call(['git', '-C', '/repo', 'worktree', 'add', '-q', '--detach', '/tmp/wt/' + wid, 'HEAD'])
     extra = "\n\nIMPORTANT - earlier rounds for this property already used the following changes, so do NOT repeat any of them or a close variant; pick a different function / mechanism / clause of the property statement:\n"
     extra += ''.join('   - %s\n' % p for p in prev[pid])
-    extra += ("The harness being tested already copes with those. Aim for something it is less likely to anticipate: a bug that needs THREE or more steps "
+    extra += ("Do NOT use `git stash` (the stash is shared between worktrees of this repository and other jobs use it concurrently); to run demo.py on the original "
+              "code use `git diff -- txdbus > patch.diff; git apply -R patch.diff; <run>; git apply patch.diff`. If the baseline shows a single failure in "
+              "tests.test_authentication.ServerObjectTester, re-run it: those tests listen on one fixed socket and collide with other jobs.\n")
+    steer = os.environ.get('WAVE_STEER')
+    if steer:
+        extra += steer + "\n"
+    else:
+      extra += ("The harness being tested already copes with those. Aim for something it is less likely to anticipate: a bug that needs THREE or more steps "
               "or two cooperating code sites to show; state surviving where it should be reset (or reset where it should survive), including state kept on a class or module "
               "and therefore shared by objects that should be independent; an interaction between two features; values at exact boundaries; a rarely-taken branch "
               "(error paths, flags, cancel / unexport / release / disconnect paths, byte-at-a-time delivery, big-endian peers). It must still be a plausible developer "
